@@ -7,7 +7,7 @@ trace (monitor mode): each event must be an instance of the specification action
 logged response; non-conforming events come back as BAD records blamed on a property.
 The driver computes no expected values; the only oracle is the specification."""
 import concurrent.futures as cf
-import hashlib, json, os, random, re, shutil, subprocess, sys, time
+import hashlib, json, os, random, re, shutil, subprocess, sys, tempfile, time
 
 import vlib
 
@@ -46,10 +46,23 @@ def run_tlc_trace(tracefile):
     return bad, r.distinct or 0
 
 
+BUDGET = {"quick": 1500, "thorough": int(os.environ.get("VERIF_THOROUGH_BUDGET_S", "2400"))}
+_deadline = [None]
+
+
+def set_deadline(tier):
+    _deadline[0] = time.time() + BUDGET[tier]
+
+
 def campaign(progs, variant, work, tag, tmo=10, extra_env=None):
-    """Execute programs on the real library, validate the traces.  Returns (bad records, stats)."""
+    """Execute programs on the real library, validate the traces.  Returns (bad records, stats).
+    Programs are dealt round-robin into shards of at most ~400 (one trace file / one TLC run each); a shard
+    runs its driver and then its trace validation.  Shards that have not started when the time budget of the
+    tier is used up are skipped and counted (stats['programs_skipped_for_budget']): the campaign always ends."""
     exe = vlib.build_harness("driver", DRIVER_SRCS, variant)
     nsh = max(1, min(16, len(progs) // 8 or 1))
+    if len(progs) > 16 * 400:
+        nsh = (len(progs) + 399) // 400
     shards = [[] for _ in range(nsh)]
     for i, p in enumerate(progs):
         shards[i % nsh].append(p)
@@ -63,15 +76,27 @@ def campaign(progs, variant, work, tag, tmo=10, extra_env=None):
         with open(pf, "w") as fh:
             for p in sh:
                 fh.write(p.text())
-        files.append((pf, os.path.join(work, "%s_%d.ndjson" % (tag, i))))
-    stats = {"programs": 0, "crashed": 0, "timeout": 0, "events": 0}
-    with cf.ThreadPoolExecutor(max_workers=16) as ex:
-        for st in ex.map(lambda f: run_driver(exe, f[0], f[1], env, tmo), files):
+        files.append((pf, os.path.join(work, "%s_%d.ndjson" % (tag, i)), len(sh)))
+    stats = {"programs": 0, "crashed": 0, "timeout": 0, "events": 0, "programs_skipped_for_budget": 0}
+
+    def one(f):
+        if _deadline[0] is not None and time.time() > _deadline[0]:
+            return None
+        st = run_driver(exe, f[0], f[1], env, tmo)
+        b, n = run_tlc_trace(f[1])
+        if nsh > 16 and not b and not tag.startswith("C08"):
+            os.unlink(f[1])                               # large campaigns keep only traces that carry rejections
+        return st, b, n
+
+    bad = []
+    with cf.ThreadPoolExecutor(max_workers=12) as ex:
+        for res, f in zip(ex.map(one, files), files):
+            if res is None:
+                stats["programs_skipped_for_budget"] += f[2]
+                continue
+            st, b, n = res
             for k in ("programs", "crashed", "timeout"):
                 stats[k] += st[k]
-    bad = []
-    with cf.ThreadPoolExecutor(max_workers=8) as ex:
-        for (b, n), f in zip(ex.map(lambda f: run_tlc_trace(f[1]), files), files):
             stats["events"] += max(0, n - 1)
             for x in b:
                 x["_trace"] = f[1]
@@ -158,6 +183,9 @@ def input_sets(rng, thorough, quick_small=60, small_maxn=4):
     if not thorough:
         must = [s for s in small if len(s) == 1][:3]
         small = must + rng.sample(small, quick_small)
+    else:
+        # exhaustive up to 3 members (469 sets), 400 sampled sets of 4 members
+        small = [s for s in small if len(s) <= 3] + rng.sample([s for s in small if len(s) == 4], 400)
     out = [("s%d" % i, S, True) for i, S in enumerate(small)]
     sm3 = [list(c) for c in G.small_sets(2, alpha=(0x61, 0x62, 0xFE), maxlen=2)]
     sm3 = sm3 if thorough else rng.sample(sm3, 10)
@@ -182,6 +210,11 @@ def make_programs(pid, tier, rng):
             # large shapes are expensive for the Re-Pair / FM-index builders: thin them in quick
             if not thorough and not small and kind in ("FMINDEX", "XBW") and len(S) > 30:
                 continue
+            # sets of thousands of strings: TLC pays for the size of the state on every event (~12 ms with 5 200 strings), so
+            # they get a thin battery (no table scan, few queries) and, in the quick tier, only the properties they are for
+            big = len(S) > 1000
+            if big and not thorough and pid not in ("C01", "C02", "C06", "C07", "C15"):
+                continue
             rich = thorough or (pid == "C12")
             grid = G.param_grid(kind, S, rich and (small or thorough))
             if not thorough and pid != "C12":
@@ -201,14 +234,14 @@ def make_programs(pid, tier, rng):
                     progs += obj_programs(pid, kind, par, name, S, "prefix", lambda h, its: G.sec_prefix(h, S, its, rng, lim))
                 elif pid == "C05":
                     if sc:
-                        progs += obj_programs(pid, kind, par, name, S, "substr", lambda h, its: G.sec_substr(h, S, its, rng, lim))
+                        progs += obj_programs(pid, kind, par, name, S, "substr", lambda h, its: G.sec_substr(h, S, its, rng, lim, minlen=2 if kind == "XBW" else 1))
                 elif pid == "C13":
                     def fn(h, its, kind=kind, par=par, S=S, sc=sc):
                         o = G.sec_table(h, S, its) if kind != "XBW" else []
                         if kind in G.PREFIX:
                             o += G.sec_prefix(h, S, its, rng, 6)
                         if sc:
-                            o += G.sec_substr(h, S, its, rng, 6)
+                            o += G.sec_substr(h, S, its, rng, 6, minlen=2 if kind == "XBW" else 1)
                         return o
                     progs += obj_programs(pid, kind, par, name, S, "iters", fn)
                 elif pid == "C15":
@@ -217,18 +250,20 @@ def make_programs(pid, tier, rng):
                     progs += obj_programs(pid, kind, par, name, S, "unsupported",
                                           lambda h, its: G.sec_unsupported(h, kind, par, S, its) + G.sec_members(h, S, rng, 6))
                 elif pid in ("C06", "C12", "C07"):
-                    def fn(h, its, kind=kind, par=par, S=S, sc=sc):
+                    def fn(h, its, kind=kind, par=par, S=S, sc=sc, big=big):
                         o = G.sec_meta(h) + G.sec_members(h, S, rng, 12) + G.sec_absent(h, S, rng, 8)
+                        if big:
+                            return o
                         if kind in G.PREFIX:
                             o += G.sec_prefix(h, S, its, rng, 5)
                         if sc:
-                            o += G.sec_substr(h, S, its, rng, 5)
+                            o += G.sec_substr(h, S, its, rng, 5, minlen=2 if kind == "XBW" else 1)
                         if kind in G.RANK:
                             o += G.sec_rank(h, S, rng, 6)
                         if kind != "XBW":
                             o += G.sec_table(h, S, its)
                         return o
-                    progs += obj_programs(pid, kind, par, name, S, "battery", fn, all_loads=(pid != "C07"))
+                    progs += obj_programs(pid, kind, par, name, S, "battery", fn, all_loads=(pid != "C07" and not big))
                 elif pid == "C08":
                     progs += c08_programs(kind, par, name, S, rng)
                 elif pid == "C14":
@@ -244,6 +279,12 @@ def make_programs(pid, tier, rng):
         # histories generated by TLC from the specification itself (spec -> impl direction): random interleavings of
         # builds, queries, iterator steps, saves, loads through every loader / option (also of foreign images), destroys
         progs += tlc_programs(pid, 1500 if thorough else 250, vlib.seed() + int(pid[1:]))
+    if pid == "C05":
+        # recorded finding F-XBW-SUBSTR-1BYTE-HANG: one probe; the batteries query XBW with patterns of 2+ bytes so that
+        # the rest of each program is still executed and validated
+        p = G.Prog("C05|XBW|-|probe1|substr|loaded")
+        p.lines = [G.build_line(1, "XBW", G.P(), [b"a", b"ab", b"b"]), "S 1 1", "CAT 1 1", G.load_line("LG", "XBW", 1, 2, 1), "LS 2 1 61", "ID 1 5", "CI 1", "D 2", "D 1"]
+        progs.append(p)
     # one probe per kind that is only usable after load (recorded finding): queries on the built object
     if pid in ("C01", "C07"):
         for kind in G.SAVE_ONLY_WHEN_BUILT:
@@ -572,6 +613,12 @@ def design_run(pid, tier):
         r["distinct"] = (r.distinct or 0) + (f.distinct or 0)
         r["generated"] = (r.generated or 0) + (f.generated or 0)
         r["frontcoding_states"] = f.distinct
+        c3 = os.path.join(vlib.CACHE, "cfg", "fc_%s_%s_emit.cfg" % (pid, tier))
+        open(c3, "w").write(body % (3, "TRUE", "EmitOK"))
+        e = vlib.tlc("FrontCodingEmit", c3, workers=4, timeout=1200)
+        if e.rc != 0:
+            raise RuntimeError("FrontCodingEmit.tla failed: rc=%s" % e.rc)
+        r["pfc_images"] = [json.loads(m.replace('\\"', '"')) for m in re.findall(r'^<<"PFCIMG", "(.*)">>$', e.out, re.M)]
     if pid in ("C05", "C04", "C03"):
         # mechanism model of the FM-index kind: suffix array, BWT, backward search, LF walk, sampling, ID arithmetic
         cfgm = os.path.join(vlib.CACHE, "cfg", "fmindexspec_%s_%s.cfg" % (pid, tier))
@@ -582,6 +629,32 @@ def design_run(pid, tier):
         r["distinct"] = (r.distinct or 0) + (m.distinct or 0)
         r["generated"] = (r.generated or 0) + (m.generated or 0)
         r["fmindexspec_states"] = m.distinct
+    if pid == "C07":
+        # unbounded companion of Capacity.tla: the arithmetic core of WriteFits proved by TLAPS for all lengths
+        os.makedirs(os.path.join(vlib.CACHE, "tlc"), exist_ok=True)
+        pd = tempfile.mkdtemp(prefix="tlaps", dir=os.path.join(vlib.CACHE, "tlc"))
+        shutil.copy(os.path.join(vlib.SPEC, "CapacityProof.tla"), pd)
+        try:
+            pr = subprocess.run(["tlapm", "--cleanfp", "CapacityProof.tla"], cwd=pd, capture_output=True, text=True, timeout=600)
+            m = re.search(r"All (\d+) obligations? proved", pr.stdout + pr.stderr)
+        except (OSError, subprocess.TimeoutExpired) as ex:
+            raise RuntimeError("tlapm could not be run on CapacityProof.tla: %s" % ex)
+        if not m:
+            raise RuntimeError("CapacityProof.tla: TLAPS did not prove every obligation: " + (pr.stdout + pr.stderr)[-400:])
+        r["tlaps_obligations_proved"] = int(m.group(1))
+        shutil.rmtree(pd, ignore_errors=True)
+    if pid in XBW_MODEL_PIDS:
+        # mechanism model of the XBW kind: double-rooted trie, node order, alpha / last / A arrays, subPathSearch,
+        # getChildren / getParent / idToStr, breadth-first ID iterators; Emit prints the arrays per member set
+        cfgx = os.path.join(vlib.CACHE, "cfg", "xbwspec_%s_%s.cfg" % (pid, tier))
+        open(cfgx, "w").write("SPECIFICATION Spec\nCONSTANTS Sigma = {2, 3}\nMaxLen = 3\nMaxN = %d\nEmit = TRUE\nINVARIANT Inv\nINVARIANT EmitOK\nCHECK_DEADLOCK FALSE\n" % (3 if tier == "thorough" else 2))
+        x = vlib.tlc("XBWSpec", cfgx, workers=8, timeout=3000, java_opts=["-Xmx8g"])
+        if x.rc != 0:
+            raise RuntimeError("XBWSpec.tla failed: rc=%s violated=%s" % (x.rc, x.violated))
+        r["distinct"] = (r.distinct or 0) + (x.distinct or 0)
+        r["generated"] = (r.generated or 0) + (x.generated or 0)
+        r["xbwspec_states"] = x.distinct
+        r["xbw_images"] = [json.loads(m.replace('\\"', '"')) for m in re.findall(r'^<<"XBWIMG", "(.*)">>$', x.out, re.M)]
     if pid in ("C01", "C02", "C12"):
         # mechanism model of the hash kinds: double-hash probing with arbitrary hash functions
         h = vlib.tlc("HashProbe", "HashProbe.cfg" if tier == "quick" else "HashProbe3.cfg", workers=8, timeout=3000, java_opts=["-Xmx12g"])
@@ -597,6 +670,105 @@ def design_run(pid, tier):
         r["generated"] = (r.generated or 0) + (h.generated or 0)
         r["hashprobe_states"] = h.distinct
     return r
+
+
+XBW_MODEL_PIDS = ("C01", "C02", "C04", "C05", "C06")
+
+
+def xbw_image_binding(work, images):
+    """XBWSpec.tla <-> StringDictionaryXBW(IteratorDictString*): for every member set TLC enumerated, the real
+    constructor builds the dictionary, saves it, and the saved image is decoded and compared field by field
+    with the arrays the model computed (len, mapping, alpha, last, A, elements, maxlength).  Returns
+    (sets compared, list of differences).  A difference means the model no longer describes the constructor:
+    it is reported as model drift (evidence + a NOTE line), never as a violation - the trace checks decide."""
+    import struct
+    exe = vlib.build_harness("driver", DRIVER_SRCS, "plain")
+    par = G.param_grid("XBW", [b"a"], False)[0]
+    pf = os.path.join(work, "xbwbind.prog")
+    with open(pf, "w") as fh:
+        for i, im in enumerate(images):
+            S = sorted(bytes(x) for x in im["S"])
+            pr = G.Prog("XBWBIND|XBW|-|m%d|image|built" % i)
+            pr.lines = [G.build_line(1, "XBW", par, S), "S 1 1", "DUMP 1", "D 1"]
+            fh.write(pr.text())
+    tr = os.path.join(work, "xbwbind.ndjson")
+    run_driver(exe, pf, tr, dict(os.environ), 10)
+    got = []
+    for line in open(tr):
+        if line.startswith('{"e":"Image"'):
+            got.append(bytes.fromhex(json.loads(line)["hex"]))
+    diffs = []
+    if len(got) != len(images):
+        return len(got), ["%d of %d member sets produced an image" % (len(got), len(images))]
+    for im, raw in zip(images, got):
+        S = sorted(bytes(x) for x in im["S"])
+        n = im["len"]
+        try:
+            typ, elements, maxlength, ln = struct.unpack_from("<IQII", raw, 0)
+            off = 20
+            mapping = struct.unpack_from("<257I", raw, off); off += 257 * 4
+            alpha = list(struct.unpack_from("<%dI" % ln, raw, off)); off += ln * 4
+            lw = struct.unpack_from("<%dI" % (ln // 32 + 1), raw, off); off += (ln // 32 + 1) * 4
+            aw = struct.unpack_from("<%dI" % (ln // 32 + 2), raw, off); off += (ln // 32 + 2) * 4
+        except struct.error as e:
+            diffs.append("%s: image too short (%s)" % (S, e))
+            continue
+        bits = lambda ws: sorted(w * 32 + b for w, x in enumerate(ws) for b in range(32) if x >> b & 1)
+        want_map = [0] * 257
+        for c, m in im["map"]:
+            want_map[c] = m
+        want_map[256] = want_map[255] + 1
+        exp = {"len": n, "elements": len(S), "maxlength": max(len(x) for x in S) + 1, "mapping": want_map, "alpha": list(im["alpha"]),
+               "last": sorted(im["last"]), "A": sorted(im["A"]), "size": off}
+        act = {"len": ln, "elements": elements, "maxlength": maxlength, "mapping": list(mapping), "alpha": alpha, "last": bits(lw), "A": bits(aw), "size": len(raw)}
+        for k in exp:
+            if exp[k] != act[k]:
+                diffs.append("%s: %s is %s in the image, %s in XBWSpec" % ([x.hex() for x in S], k, act[k], exp[k]))
+                break
+    return len(got), diffs
+
+
+def pfc_image_binding(work, images):
+    """FrontCoding.tla <-> StringDictionaryPFC(it, bucketsize): for every (member set, bucket size) TLC
+    enumerated the real constructor builds the dictionary and saves it; the image's text and its bucket
+    offsets (LogSequence) are decoded and compared with the model's layout.  Differences are model drift
+    (NOTE + evidence), never a violation."""
+    import struct
+    exe = vlib.build_harness("driver", DRIVER_SRCS, "plain")
+    base = G.param_grid("PFC", [b"a"], False)[0]
+    pf = os.path.join(work, "pfcbind.prog")
+    with open(pf, "w") as fh:
+        for i, im in enumerate(images):
+            S = [bytes(x) for x in im["S"]]
+            pr = G.Prog("PFCBIND|PFC|b%d|m%d|image|built" % (im["b"], i))
+            pr.lines = [G.build_line(1, "PFC", dict(base, bucket=im["b"]), S), "S 1 1", "DUMP 1", "D 1"]
+            fh.write(pr.text())
+    tr = os.path.join(work, "pfcbind.ndjson")
+    run_driver(exe, pf, tr, dict(os.environ), 10)
+    got = [bytes.fromhex(json.loads(line)["hex"]) for line in open(tr) if line.startswith('{"e":"Image"')]
+    if len(got) != len(images):
+        return len(got), ["%d of %d (member set, bucket) pairs produced an image" % (len(got), len(images))]
+    diffs = []
+    for im, raw in zip(images, got):
+        S = [bytes(x) for x in im["S"]]
+        try:
+            typ, elements, maxlength, buckets, bucketsize, nbytes = struct.unpack_from("<IQIIIQ", raw, 0)
+            text = list(raw[32:32 + nbytes])
+            off = 32 + nbytes
+            numbits = raw[off]
+            numentries = struct.unpack_from("<Q", raw, off + 1)[0]
+            arr = int.from_bytes(raw[off + 9:], "little")
+            bl = [(arr >> (i * numbits)) & ((1 << numbits) - 1) for i in range(numentries)]
+        except (struct.error, IndexError) as e:
+            diffs.append("%s bucket %d: image too short (%s)" % (S, im["b"], e))
+            continue
+        exp = {"elements": len(S), "bucketsize": im["b"], "buckets": len(im["bl"]), "text": list(im["text"]), "offsets": [0] + list(im["bl"]) + [len(im["text"])]}
+        act = {"elements": elements, "bucketsize": bucketsize, "buckets": buckets, "text": text, "offsets": bl}
+        for k in exp:
+            if exp[k] != act[k]:
+                diffs.append("%s bucket %d: %s is %s in the image, %s in FrontCoding.tla" % ([x.hex() for x in S], im["b"], k, act[k], exp[k]))
+                break
+    return len(got), diffs
 
 
 def hashutil_binding(pid, work, tier):
@@ -616,9 +788,10 @@ def run(pid, tier):
     t0 = time.time()
     V = vlib.Verdict(pid)
     rng = random.Random(vlib.seed() * 7919 + int(pid[1:]))
-    work = os.path.join(vlib.CACHE, "work", pid)
+    work = os.path.join(vlib.WORK, pid)
     shutil.rmtree(work, ignore_errors=True)
     os.makedirs(work)
+    set_deadline(tier)
     with cf.ThreadPoolExecutor(max_workers=1) as bg:
         fut = bg.submit(design_run, pid, tier)
         progs = make_programs(pid, tier, rng)
@@ -626,6 +799,7 @@ def run(pid, tier):
         tmo = 10 if tier == "thorough" else 4
         bad, stats = campaign(progs, variant, work, pid, tmo=tmo)
         extra = {}
+        bad, extra["timeouts_not_repeated"] = confirm_timeouts(bad, work, variant, pid)
         if pid in ("C02", "C04"):
             # "without touching memory outside the dictionary": the same programs on the ASan variant
             sub = [p for i, p in enumerate(progs) if i % (1 if tier == "thorough" else 3) == 0]
@@ -645,6 +819,23 @@ def run(pid, tier):
             bad += hb
             extra["nearest_prime_calls_validated"] = hn
         design = fut.result()
+        if design.get("tlaps_obligations_proved"):
+            extra["tlaps_obligations_proved"] = design["tlaps_obligations_proved"]
+        if design.get("pfc_images"):
+            nb, drift = pfc_image_binding(work, design["pfc_images"])
+            extra["pfc_images_compared_with_model"] = nb
+            extra["frontcoding_model_bound"] = not drift
+            if drift:
+                extra["frontcoding_model_drift"] = drift[:5]
+                print("NOTE: FrontCoding.tla no longer describes the PFC constructor's layout (%d difference(s), first: %s); its verdict is not claimed for this tree, the trace checks decide" % (len(drift), drift[0]))
+        if pid in XBW_MODEL_PIDS and design.get("xbw_images"):
+            nb, drift = xbw_image_binding(work, design["xbw_images"])
+            extra["xbwspec_states"] = design.get("xbwspec_states")
+            extra["xbw_images_compared_with_model"] = nb
+            extra["xbw_model_bound"] = not drift
+            if drift:
+                extra["xbw_model_drift"] = drift[:5]
+                print("NOTE: XBWSpec.tla no longer describes the XBW constructor (%d difference(s), first: %s); its verdict is not claimed for this tree, the trace checks decide" % (len(drift), drift[0]))
 
     rel = [b for b in bad if relevant(pid, b)]
     if pid == "C12":
@@ -693,6 +884,7 @@ def run(pid, tier):
                 "samples": samples, "events_validated": stats["events"], "evaluations": stats["events"], "distinct_nontrivial": distinct,
                 "rule": "one program per (kind, parameters, input set, battery section, built/loaded[load variant]); distinct = distinct such tuples; every logged API call is one validated event",
                 "kinds": kinds, "programs_crashed": stats["crashed"], "programs_timed_out": stats["timeout"],
+                "programs_skipped_for_budget": stats.get("programs_skipped_for_budget", 0), "time_budget_s": BUDGET[tier],
                 "rejections_for_this_property": len(rel), "distinct_rejection_signatures": len(seen),
                 "small_scope_model": "CSDMC (%s): invariant %s + action property Immutable" % ("quick scope" if tier == "quick" else "full scope", INV[pid]),
                 "exhaustive": False}
@@ -748,6 +940,60 @@ def resolve_crash_sites(rel, work):
             sg = signature(b)
             c, st = gsite.get((sg["kind"], sg["origin"], sg["op"], b["ev"]), ("no-asan-report", "no-asan-report"))
             b["cls"], b["site"] = c, st
+
+
+def confirm_timeouts(bad, work, variant, tag):
+    """A `timeout` event is reported only if it repeats: the per-program time limit of a campaign is short and
+    the machine may be loaded.  Programs that timed out are re-run (batches of 12, 4 drivers in parallel, 30 s
+    limit); a program that now finishes has its timeout record replaced by the verdict of the new trace.  Once
+    a batch contains a repeated timeout the remaining ones are kept unverified."""
+    tprogs = []
+    for b in bad:
+        if b["ev"] == "timeout" and "_progfile" in b and b["prog"] not in tprogs:
+            tprogs.append(b["prog"])
+    if not tprogs:
+        return bad, 0
+    src = {b["prog"]: b for b in bad if b["ev"] == "timeout" and "_progfile" in b}
+    exe = vlib.build_harness("driver", DRIVER_SRCS, variant)
+    env = dict(os.environ)
+    if variant == "asan":
+        env["ASAN_OPTIONS"] = "halt_on_error=0:detect_leaks=0:allocator_may_return_null=1:max_allocation_size_mb=4096"
+    cleared, extra_bad = set(), []
+    for bi in range(0, len(tprogs), 12):
+        batch = tprogs[bi:bi + 12]
+        jobs = []
+        for k in range(4):
+            part = batch[k::4]
+            if not part:
+                continue
+            pf = os.path.join(work, "%s_retime_%d_%d.prog" % (tag, bi, k))
+            with open(pf, "w") as fh:
+                for prog in part:
+                    fh.write(extract_program(src[prog]["_progfile"], prog))
+            jobs.append((pf, pf.replace(".prog", ".ndjson"), part))
+        with cf.ThreadPoolExecutor(max_workers=4) as ex:
+            list(ex.map(lambda j: run_driver(exe, j[0], j[1], env, 30), jobs))
+        repeated = False
+        for pf, tr, part in jobs:
+            again, cur = set(), None
+            for line in open(tr):
+                if line.startswith('{"e":"Reset"'):
+                    cur = json.loads(line)["prog"]
+                elif line.startswith('{"e":"timeout"'):
+                    again.add(cur)
+            ok = [p_ for p_ in part if p_ not in again]
+            repeated = repeated or bool(again)
+            if ok:
+                nb, _n = run_tlc_trace(tr)
+                for x in nb:
+                    if x["prog"] in ok:
+                        x["_trace"], x["_progfile"] = tr, pf
+                        extra_bad.append(x)
+                cleared |= set(ok)
+        if repeated:
+            break
+    kept = [b for b in bad if not (b["prog"] in cleared)]
+    return kept + extra_bad, len(cleared)
 
 
 def confirm_memalloc(rel, work):
